@@ -269,6 +269,12 @@ func (s *c19Sys) tok(v []byte) string {
 func (s *c19Sys) Canon() string {
 	var b strings.Builder
 	now := sched.PeekNS() / 1e6
+	// which DMap names every member's service has registered: state that no read shows but that
+	// decides what a later Destroy finds (a name is dropped by Destroy and registered again by the
+	// next command that reaches the member)
+	for _, m := range s.Cl.Live() {
+		fmt.Fprintf(&b, "N%s%v;", m.Name[len(m.Name)-1:], m.DB.VerifDMap().VerifDMapNames())
+	}
 	for d := range s.P.DMaps {
 		var ks []string
 		for k := range s.Ref[d] {
@@ -350,12 +356,19 @@ func c19Specs(tier string) []*clustermc.Spec {
 		{2, 2, "CC", grid[1], keysFor["x"]},
 	}
 	depth := 3
+	// a single member (every operation is local, nothing re-registers a DMap name behind the
+	// handle's back) is explored one level deeper: put ; destroy ; put ; destroy
+	cfs = append(cfs, cf{1, 1, "EO", grid[0], keysFor["ab"]})
 	if !quick {
 		depth = 4
-		cfs = append(cfs, cf{1, 1, "EO", grid[0], keysFor["ab"]}, cf{3, 2, "CC", grid[0], keysFor["ab"]}, cf{3, 2, "EN", grid[1], keysFor["x"]})
+		cfs = append(cfs, cf{3, 2, "CC", grid[0], keysFor["ab"]}, cf{3, 2, "EN", grid[1], keysFor["x"]})
 	}
 	var out []*clustermc.Spec
 	for _, c := range cfs {
+		depth := depth
+		if c.n == 1 {
+			depth++
+		}
 		p := &c19Params{Name: fmt.Sprintf("dmaps=%q N=%d R=%d entry=%s", c.names, c.n, c.r, c.entry), Entry: c.entry, DMaps: c.names, Keys: c.keys, Depth: depth,
 			Opts: simcluster.Opts{N: c.n, Replicas: c.r, WriteQ: 1, ReadQ: 1, Partitions: 3}}
 		var alpha []clustermc.Ev
